@@ -34,6 +34,8 @@ def gen_cases(seed, tier, n):
             c["params"]["decoded"] = True
         if i % 8 == 6:
             fw.set_quarter_us(c)           # quarter-microsecond resolution (framework.resolution)
+        if i % 16 == 3 and not c["params"].get("quarter_us"):
+            tracegen.scale_case_int32_edge(c)    # latest start just below 2**31, latest ends above
         if i % 16 == 11 and not c["params"].get("quarter_us"):
             tracegen.scale_case(c, 10 ** 8)     # a long trace: sums beyond 2**24 and 2**31 (the models are homogeneous in time)
         out.append(c)
